@@ -1,6 +1,8 @@
 import Gv.NumReal
 import Gv.Model.Dist
 import Gv.Spec.Published
+import Gv.Proofs.DistLemmas
+import Gv.Proofs.DistReal
 /-!
 # C07 — nucleotide distances equal the published estimators and form sane matrices
 
@@ -12,14 +14,17 @@ zero diagonal.  Generic in the weight type wherever no arithmetic law is needed.
 Part 2 (real-valued): theorems about the estimator code **regenerated from the Go source**
 (`Gv.Gen.*Distance`, `Gv.Gen.*Init`, tie T2) evaluated at `ℝ`: equal to the published formulas of
 `Spec/Published.lean` on their domain, at least the observed proportion of differences there, zero
-without differences.
+without differences.  The proofs do not name the generated text: they hold for the unchanged
+source and for the repaired one (guards before the logarithms, clamp in F84).
 
 Part 3 (special values, `FVal`): an undefined estimator never becomes a finite matrix entry —
 proved about whatever the regenerated code is, in the form "the code guards its logarithms, or it
 is exactly the unchanged code that returns 0 on the saturated witness".
+
+Helper lemmas: `Proofs/DistLemmas.lean` (core-only), `Proofs/DistReal.lean` (Mathlib).
 -/
 namespace Gv.Props.C07
-open Gv Gv.Model.Dist
+open Gv Gv.Model.Dist Gv.Proofs.Dist Gv.Proofs.DistReal Gv.Spec.Published
 set_option maxRecDepth 100000
 
 /-! ## Part 1 — counters, selection, matrix -/
@@ -27,79 +32,7 @@ set_option maxRecDepth 100000
 section discrete
 variable {α : Type} [RealLike α]
 
-/-- the same column seen from the other row -/
-def Site.swap (s : Site α) : Site α := ⟨s.b, s.a, s.sel, s.w⟩
-
-private theorem sites_swap (s1 s2 : List Code) (sel : List Bool) (ws : Option (List α)) :
-    sites s2 s1 sel ws = (sites s1 s2 sel ws).map Site.swap := by
-  induction s1 generalizing s2 sel ws with
-  | nil => cases s2 <;> simp [sites]
-  | cons a t ih =>
-    cases s2 with
-    | nil => simp [sites]
-    | cons b t2 =>
-      cases sel with
-      | nil => simp [sites]
-      | cons s sel =>
-        cases ws with
-        | none => simp [sites, Site.swap, ih]
-        | some w =>
-          cases w with
-          | nil => simp [sites]
-          | cons w ws => simp [sites, Site.swap, ih]
-
-private theorem ntDiff_symm : ∀ a b : Code, ntIUPACDifference a b = ntIUPACDifference b a := by
-  intro a b
-  unfold ntIUPACDifference
-  by_cases ha : a > NT_N <;> by_cases hb : b > NT_N <;> simp [ha, hb, UInt8.and_comm, eq_comm]
-  by_cases hab : a = b
-  · simp [hab]
-  · have : ¬ b = a := fun h => hab h.symm
-    simp [hab, this]
-
-private theorem isTransversion_symm (a b : Code) : isTransversion a b = isTransversion b a := by
-  unfold isTransversion
-  rw [Bool.or_comm]
-  congr 1 <;> simp only [Bool.and_assoc] <;> rw [Bool.and_comm] <;> simp only [Bool.and_assoc]
-    <;> (repeat rw [← Bool.and_assoc]) <;> simp [Bool.and_comm, Bool.and_left_comm]
-
-private theorem isTransition_symm (a b : Code) : isTransition a b = isTransition b a := by
-  unfold isTransition
-  cases h1 : (a == NT_A) <;> cases h2 : (b == NT_G) <;> cases h3 : (a == NT_G) <;> cases h4 : (b == NT_A)
-    <;> cases h5 : (a == NT_T) <;> cases h6 : (b == NT_C) <;> cases h7 : (a == NT_C) <;> cases h8 : (b == NT_T) <;> rfl
-
-private theorem isAG_symm (a b : Code) : isAG a b = isAG b a := by
-  unfold isAG
-  cases h1 : (a == NT_A) <;> cases h2 : (b == NT_G) <;> cases h3 : (a == NT_G) <;> cases h4 : (b == NT_A) <;> rfl
-
-private theorem isCT_symm (a b : Code) : isCT a b = isCT b a := by
-  unfold isCT
-  cases h5 : (a == NT_T) <;> cases h6 : (b == NT_C) <;> cases h7 : (a == NT_C) <;> cases h8 : (b == NT_T) <;> rfl
-
-private theorem bne_symm (a b : Code) : (a != b) = (b != a) := by
-  by_cases h : a = b
-  · simp [h]
-  · have : ¬ b = a := fun h' => h h'.symm
-    simp [h, this]
-
-private theorem diffUpdate_swap (r : Bool) (nb tot : α) (s : Site α) :
-    diffUpdate r nb tot (Site.swap s) = diffUpdate r nb tot s := by
-  unfold diffUpdate Site.swap
-  simp only [bne_symm s.b s.a, ntDiff_symm s.b s.a, Bool.or_comm (isAmbiguous s.b) (isAmbiguous s.a)]
-
-private theorem diffStep_swap (g r : Bool) (st : α × α) (s : Site α) :
-    diffStep g r st (Site.swap s) = diffStep g r st s := by
-  unfold diffStep
-  rw [diffUpdate_swap]
-  simp only [Site.swap, Bool.or_comm (isNuc s.b) (isNuc s.a), Bool.and_comm (isNuc s.b) (isNuc s.a)]
-
-private theorem foldl_map_swap {β : Type} (f : β → Site α → β) (h : ∀ st s, f st (Site.swap s) = f st s)
-    (l : List (Site α)) (st : β) : (l.map Site.swap).foldl f st = l.foldl f st := by
-  induction l generalizing st with
-  | nil => rfl
-  | cons s t ih => simp [List.foldl, h, ih]
-
-/-- `countDiffs(seq2, seq1, …) = countDiffs(seq1, seq2, …)` for every pair of rows, selection and weights -/
+/-- `countDiffs(seq2, seq1, …) = countDiffs(seq1, seq2, …)` for all rows, selections and weights -/
 theorem countDiffs_symmetric (rmAmb : Bool) (s1 s2 : List Code) (sel : List Bool) (ws : Option (List α)) :
     countDiffs rmAmb (sites s2 s1 sel ws) = countDiffs rmAmb (sites s1 s2 sel ws) := by
   rw [sites_swap]
@@ -111,46 +44,93 @@ theorem countDiffsWithGaps_symmetric (rmAmb : Bool) (s1 s2 : List Code) (sel : L
   rw [sites_swap]
   exact foldl_map_swap _ (diffStep_swap true rmAmb) _ _
 
-private theorem mutStep_swap (st : Mut α) (s : Site α) : mutStep st (Site.swap s) = mutStep st s := by
-  unfold mutStep
-  simp only [Site.swap, bne_symm s.b s.a, isTransversion_symm s.b s.a, isTransition_symm s.b s.a,
-    isAG_symm s.b s.a, isCT_symm s.b s.a, Bool.and_comm (isNuc s.b) (isNuc s.a)]
-
 /-- transitions, transversions, A<->G, C<->T and total do not depend on the order of the two rows -/
 theorem countMutations_symmetric (s1 s2 : List Code) (sel : List Bool) (ws : Option (List α)) :
     countMutations (sites s2 s1 sel ws) = countMutations (sites s1 s2 sel ws) := by
   rw [sites_swap]
   exact foldl_map_swap _ mutStep_swap _ _
 
-/-- state of the internal-gap counter seen from the other row -/
-def IG.swap (st : IG α) : IG α := ⟨st.nb, st.tot, st.first2, st.first1, st.tmp2, st.tmp1⟩
-
-private theorem igStep_swap (h r : Bool) (st : IG α) (s : Site α) :
-    igStep h r (IG.swap st) (Site.swap s) = IG.swap (igStep h r st s) := by
-  unfold igStep
-  rw [diffUpdate_swap]
-  simp only [Site.swap, IG.swap, bne_symm s.b s.a, Bool.or_comm (isNuc s.b) (isNuc s.a),
-    Bool.and_comm (!(st.first2 && !isNuc s.b)) (!(st.first1 && !isNuc s.a))]
-  split <;> rfl
-
-private theorem ig_foldl_swap (h r : Bool) (l : List (Site α)) (st : IG α) :
-    (l.map Site.swap).foldl (igStep h r) (IG.swap st) = IG.swap (l.foldl (igStep h r) st) := by
-  induction l generalizing st with
-  | nil => rfl
-  | cons s t ih => simp only [List.map, List.foldl, igStep_swap, ih]
-
 /-- `countDiffsWithInternalGaps` is symmetric whenever the maximum of the two trailing-gap
-accumulators does not depend on their order (true over `ℝ`: `countDiffsWithInternalGaps_symmetric`;
-for `float64` it holds for the non-NaN values that finite positive weights produce) -/
+accumulators does not depend on their order (true over `ℝ`, next theorem; for `float64` it holds
+for the non-NaN values that finite positive weights produce).  Both the unchanged counter
+(`honour = false`) and the repaired one. -/
 theorem countDiffsWithInternalGaps_symmetric_of_max_comm (hmax : ∀ x y : α, maxG x y = maxG y x)
     (honour rmAmb : Bool) (s1 s2 : List Code) (sel : List Bool) (ws : Option (List α)) :
     countDiffsWithInternalGaps honour rmAmb (sites s2 s1 sel ws)
       = countDiffsWithInternalGaps honour rmAmb (sites s1 s2 sel ws) := by
   rw [sites_swap]
   unfold countDiffsWithInternalGaps
-  have h0 : (⟨0, 0, true, true, 0, 0⟩ : IG α) = IG.swap ⟨0, 0, true, true, 0, 0⟩ := rfl
+  have h0 : (⟨0, 0, true, true, 0, 0⟩ : IG α) = swapIG ⟨0, 0, true, true, 0, 0⟩ := rfl
   rw [h0, ig_foldl_swap]
-  simp only [IG.swap, hmax ((List.foldl (igStep honour rmAmb) ⟨0, 0, true, true, 0, 0⟩ (sites s1 s2 sel ws)).tmp2)]
+  simp only [swapIG, hmax ((List.foldl (igStep honour rmAmb) ⟨0, 0, true, true, 0, 0⟩ (sites s1 s2 sel ws)).tmp2)]
+
+/-- two equal rows have no counted difference (`countDiffs`, `countDiffsWithGaps`), whatever the
+selection, the weights and the ambiguity mode -/
+theorem counters_zero_on_equal_rows (rmAmb : Bool) (s : List Code) (sel : List Bool) (ws : Option (List α)) :
+    (countDiffs rmAmb (sites s s sel ws)).1 = 0 ∧ (countDiffsWithGaps rmAmb (sites s s sel ws)).1 = 0 :=
+  ⟨countDiffsGen_diag false rmAmb _ (sites_diag s sel ws), countDiffsGen_diag true rmAmb _ (sites_diag s sel ws)⟩
+
+/-- … and no transition, transversion, A<->G or C<->T -/
+theorem countMutations_zero_on_equal_rows (s : List Code) (sel : List Bool) (ws : Option (List α)) :
+    (countMutations (sites s s sel ws)).transitions = 0 ∧ (countMutations (sites s s sel ws)).transversions = 0 ∧
+    (countMutations (sites s s sel ws)).ag = 0 ∧ (countMutations (sites s s sel ws)).ct = 0 :=
+  countMutations_diag _ (sites_diag s sel ws)
+
+/-- passing unit weights is the same as passing no weights: the counters see the same sites -/
+theorem weights_nil_eq_unit (s1 s2 : List Code) (sel : List Bool) :
+    sites s1 s2 sel (some (List.replicate s1.length (1 : α))) = sites s1 s2 sel none :=
+  sites_unit s1 s2 sel s1.length (Nat.le_refl _)
+
+/-- the assembled matrix is symmetric: for every model, option set, range mode and variant -/
+theorem matrix_symmetric (c : Cfg α) (rows : List Seq) (r1min r1max r2min r2max : Int) (m : List (List α))
+    (h : distMatrix c rows r1min r1max r2min r2max = some m) (i j : Nat) (hi : i < rows.length) (hj : j < rows.length) :
+    (m.getD i []).getD j 0 = (m.getD j []).getD i 0 := by
+  obtain ⟨entries, _, rfl⟩ := distMatrix_shape c rows _ _ _ _ m h
+  simp [List.getD, hi, hj, cell_symm c.variant entries i j]
+
+/-- … with a zero diagonal -/
+theorem matrix_diag_zero (c : Cfg α) (rows : List Seq) (r1min r1max r2min r2max : Int) (m : List (List α))
+    (h : distMatrix c rows r1min r1max r2min r2max = some m) (i : Nat) (hi : i < rows.length) :
+    (m.getD i []).getD i 1 = 0 := by
+  obtain ⟨entries, hoff, rfl⟩ := distMatrix_shape c rows _ _ _ _ m h
+  simp [List.getD, hi, cell_diag c.variant entries i hoff]
 
 end discrete
+
+/-- over the reals the internal-gap counter is symmetric too (unchanged and repaired variant) -/
+theorem countDiffsWithInternalGaps_symmetric (honour rmAmb : Bool) (s1 s2 : List Code) (sel : List Bool)
+    (ws : Option (List ℝ)) :
+    countDiffsWithInternalGaps honour rmAmb (sites s2 s1 sel ws)
+      = countDiffsWithInternalGaps honour rmAmb (sites s1 s2 sel ws) := by
+  apply countDiffsWithInternalGaps_symmetric_of_max_comm
+  intro x y
+  unfold maxG
+  real_like
+  simp only [decide_eq_true_eq]
+  split_ifs with h1 h2 h2
+  · exact absurd h1 (not_lt.mpr h2.le)
+  · rfl
+  · rfl
+  · linarith
+
+/-- … and it counts no difference between equal rows -/
+theorem internalGaps_zero_on_equal_rows (honour rmAmb : Bool) (s : List Code) (sel : List Bool)
+    (ws : Option (List ℝ)) : (countDiffsWithInternalGaps honour rmAmb (sites s s sel ws)).1 = 0 := by
+  rw [countDiffsWithInternalGaps_diag honour rmAmb _ (sites_diag s sel ws)]
+  real_like
+  simp
+
+/-- site selection: with gap-site removal a site is selected iff every row holds A, C, G or T
+(either case) there; without it every site is selected.  (`nt2index` is regenerated from the source.) -/
+theorem selectedSites_spec (rows : List Seq) (rmGaps : Bool) (l : Nat) (hl : l < (rows.headD []).length) :
+    (selectedSites rows rmGaps)[l]? = some (!rmGaps || rows.all fun s => isACGT (s.getD l 0)) :=
+  selectedSites_get rows rmGaps l hl
+
+/-- non-vacuity (`AC-a` / `ACGt`): a gapped column is dropped, an `acgt` column is kept -/
+example : selectedSites [[65, 67, 45, 97], [65, 67, 71, 116]] true = [true, true, false, true] := by decide
+
+/-- non-vacuity: the pairs of the whole matrix and of a range request -/
+example : pairList 3 (-1) (-1) (-1) (-1) = some [(0, 1), (0, 2), (1, 2)] := by decide
+example : pairList 3 0 1 1 5 = some [(0, 1), (0, 2), (1, 2)] := by decide
+
 end Gv.Props.C07
